@@ -120,6 +120,48 @@ def _run_one(args) -> dict:
         shutil.rmtree(tmp, ignore_errors=True)
 
 
+BENIGN_DIR = Path(__file__).resolve().parent.parent / "benign"
+
+
+def _patch_files(patch: Path) -> list[str]:
+    return [l[6:].strip() for l in patch.read_text().splitlines() if l.startswith("+++ b/")]
+
+
+def _run_benign(args) -> dict:
+    """Apply one behaviour-preserving refactoring patch to a scratch copy; the rules must stay silent."""
+    pid, modname, root, patch = args
+    import importlib
+    import subprocess
+
+    tmp = Path(tempfile.mkdtemp(prefix="sa_benign_"))
+    name = "benign:" + Path(patch).stem
+    try:
+        shutil.copytree(Path(root) / "ladim", tmp / "ladim")
+        docsrc = Path(root) / "doc" / "source" / "output.rst"
+        if docsrc.exists():
+            (tmp / "doc" / "source").mkdir(parents=True, exist_ok=True)
+            shutil.copy(docsrc, tmp / "doc" / "source" / "output.rst")
+        r = subprocess.run(["git", "apply", "--whitespace=nowarn", str(patch)], cwd=tmp, capture_output=True, text=True)
+        if r.returncode != 0:
+            return {"id": name, "status": "not-applicable", "why": "patch does not apply to the current tree"}
+        mod = importlib.import_module(modname)
+        rep = Report(pid=pid, tier="quick")
+        try:
+            prog = Program(tmp)
+            mod.run(prog, rep, "quick")
+        except AnalysisError as e:
+            return {"id": name, "status": "mismatch", "expect": "silent", "why": f"analysis error: {e}", "fired": []}
+        except Exception as e:  # noqa: BLE001
+            return {"id": name, "status": "mismatch", "expect": "silent", "why": f"{type(e).__name__}: {e}", "fired": []}
+        from .report import load_known_findings
+
+        known = {e["key"] for e in load_known_findings() if e["property"] == pid and e["status"] == "open"}
+        viol = [o for o in rep.obligations if o.verdict == "violation" and o.key not in known]
+        return {"id": name, "status": "ok" if not viol else "mismatch", "expect": "silent", "fired": sorted({o.rule for o in viol}), "first": (viol[0].what[:160] if viol else "")}
+    finally:
+        shutil.rmtree(tmp, ignore_errors=True)
+
+
 def run_audit(pid: str, mod, prog: Program, rep: Report) -> int:
     muts = list(getattr(mod, "AUDIT", []))
     if callable(getattr(mod, "audit", None)) and not muts:
@@ -128,12 +170,20 @@ def run_audit(pid: str, mod, prog: Program, rep: Report) -> int:
         return 0
     t0 = time.time()
     jobs = [(pid, mod.__name__, str(prog.root), m) for m in muts]
-    workers = min(16, len(jobs), os.cpu_count() or 1)
+    # behaviour-preserving refactorings (benign corpus) that touch a file this property's rules consulted
+    consulted = set(prog.digests().keys())
+    bjobs = []
+    if BENIGN_DIR.is_dir():
+        for patch in sorted(BENIGN_DIR.glob("*.diff")):
+            if set(_patch_files(patch)) & consulted:
+                bjobs.append((pid, mod.__name__, str(prog.root), str(patch)))
+    workers = min(16, len(jobs) + len(bjobs), os.cpu_count() or 1)
     if workers > 1:
         with ProcessPoolExecutor(max_workers=workers) as ex:
             results = list(ex.map(_run_one, jobs))
+            results += list(ex.map(_run_benign, bjobs))
     else:
-        results = [_run_one(j) for j in jobs]
+        results = [_run_one(j) for j in jobs] + [_run_benign(j) for j in bjobs]
     n_ok = sum(r["status"] == "ok" for r in results)
     n_na = sum(r["status"] == "not-applicable" for r in results)
     bad = [r for r in results if r["status"] not in ("ok", "not-applicable")]
@@ -166,7 +216,8 @@ def run_audit(pid: str, mod, prog: Program, rep: Report) -> int:
             "not_applicable": n_na,
             "mismatching": len(really_bad),
             "breaking": sum(1 for m in muts if m.expect == "fire"),
-            "benign": sum(1 for m in muts if m.expect == "silent"),
+            "benign": sum(1 for m in muts if m.expect == "silent") + len(bjobs),
+            "benign_refactoring_patches": len(bjobs),
             "results": results,
         }
         ev["wall_s"] = round(ev.get("wall_s", 0) + time.time() - t0, 3)
